@@ -388,7 +388,7 @@ func (s *state) runB(family string, edits []edit, triples []triple) {
 
 // ---------------------------------------------------------------- W cases
 type wop struct {
-	c string // P S D N At De Ba Br Sb Ed
+	c string // P S D N At De DeA Ba Br BrA Ri Na Nr Ba2 Br2 Sb Ed
 	v uint32
 	i int
 	e edit
@@ -424,6 +424,20 @@ func (s *state) runW(mid, nid uint32, npool int, ops []wop) {
 	node := acmelib.NewNode("node", acmelib.NodeID(nid), 1)
 	iface := node.Interfaces()[0]
 	bus := acmelib.NewBus("bus")
+	net := acmelib.NewNetwork("net")
+	// a sibling message on the same interface and a bystander node/interface/message: they make the
+	// remove-all paths remove more than one thing and are checked by the Go predicate only
+	sib := acmelib.NewMessage("msg3", acmelib.MessageID(0x0ABCDE77), 8)
+	if err := iface.AddSentMessage(sib); err != nil {
+		panic("harness: " + err.Error())
+	}
+	node2 := acmelib.NewNode("node2", acmelib.NodeID(0x3C3C3C3D), 1)
+	iface2 := node2.Interfaces()[0]
+	msg2 := acmelib.NewMessage("msg2", acmelib.MessageID(0x00012345), 8)
+	if err := iface2.AddSentMessage(msg2); err != nil {
+		panic("harness: " + err.Error())
+	}
+	sibAttached, onBus2 := true, false
 	pool := []*acmelib.CANIDBuilder{bus.CANIDBuilder()}
 	for i := 0; i < npool; i++ {
 		pool = append(pool, acmelib.NewCANIDBuilder(fmt.Sprintf("pool_%d", i)))
@@ -463,6 +477,31 @@ func (s *state) runW(mid, nid uint32, npool int, ops []wop) {
 			err = iface.RemoveSentMessage(msg.EntityID())
 			if err == nil {
 				attached = false
+			}
+		case "DeA":
+			iface.RemoveAllSentMessages()
+			attached, sibAttached = false, false
+		case "BrA":
+			bus.RemoveAllNodeInterfaces()
+			onBus, onBus2 = false, false
+		case "Ri":
+			err = node.RemoveInterface(0)
+			if err == nil {
+				onBus = false
+			}
+		case "Na":
+			err = net.AddBus(bus)
+		case "Nr":
+			err = net.RemoveBus(bus.EntityID())
+		case "Ba2":
+			err = bus.AddNodeInterface(iface2)
+			if err == nil {
+				onBus2 = true
+			}
+		case "Br2":
+			err = bus.RemoveNodeInterface(node2.EntityID())
+			if err == nil {
+				onBus2 = false
 			}
 		case "Ba":
 			err = bus.AddNodeInterface(iface)
@@ -530,6 +569,28 @@ func (s *state) runW(mid, nid uint32, npool int, ops []wop) {
 		}
 		statesSeen[st] = true
 		s.hist["getcanid/"+st]++
+		// the sibling (same interface) and the bystander (other node) follow the same case split
+		for _, other := range []struct {
+			who      string
+			m        *acmelib.Message
+			n        *acmelib.Node
+			att, bus bool
+		}{{"sibling", sib, node, sibAttached, onBus}, {"bystander", msg2, node2, true, onBus2}} {
+			ow, ost := uint32(other.m.ID()), "detached"
+			if other.att {
+				ost = "interface-without-bus"
+				if other.bus {
+					ost = "on-bus"
+					ow = uint32(bus.CANIDBuilder().Calculate(other.m.Priority(), other.m.ID(), other.n.ID()))
+				}
+			}
+			if og := uint32(other.m.GetCANID()); og != ow {
+				s.fail("getcanid-"+other.who+"-"+ost, fmt.Sprintf("after %s: GetCANID of the %s message (state %s) = %#x, documented %#x; case %s", o, other.who, ost, og, ow, input))
+			}
+			if (other.m.SenderNodeInterface() != nil) != other.att || (other.att && (other.m.SenderNodeInterface().ParentBus() != nil) != other.bus) {
+				s.fail("attachment-state-"+other.who, fmt.Sprintf("after %s: the %s message has sender %v / parent bus differing from what was done (attached %v, on bus %v); case %s", o, other.who, other.m.SenderNodeInterface() != nil, other.att, other.bus, input))
+			}
+		}
 		if got != want {
 			s.fail("getcanid-"+st, fmt.Sprintf("after %s (state %s): GetCANID=%#x, documented %#x (id=%#x prio=%#x node=%#x builder=[%s]); case %s", o, st, got, want, uint32(msg.ID()), uint32(msg.Priority()), uint32(node.ID()), opsString(bus.CANIDBuilder()), input))
 		}
@@ -811,6 +872,7 @@ func generate(s *state, r *rng, thorough bool) {
 		npool := 1 + r.below(3)
 		var ops []wop
 		attached, onBus := false, false
+		riUsed, inNet, onBus2 := false, false, false
 		lens := make([]int, npool+1)
 		lens[0] = 3
 		n := 4 + r.below(14)
@@ -825,19 +887,47 @@ func generate(s *state, r *rng, thorough bool) {
 			case x < 8:
 				ops = append(ops, wop{c: "N", v: r.val32()})
 			case x < 11:
+				// every detach path of a message, then re-attach
 				if attached {
-					ops = append(ops, wop{c: "De"})
+					ops = append(ops, wop{c: []string{"De", "De", "DeA"}[r.below(3)]})
 				} else {
 					ops = append(ops, wop{c: "At"})
 				}
 				attached = !attached
 			case x < 14:
+				// every detach path of an interface, then re-attach
 				if onBus {
-					ops = append(ops, wop{c: "Br"})
+					c := []string{"Br", "Br", "BrA", "BrA", "Ri"}[r.below(5)]
+					if c == "Ri" {
+						if riUsed {
+							c = "BrA"
+						}
+						riUsed = true
+					}
+					if c == "BrA" {
+						onBus2 = false
+					}
+					ops = append(ops, wop{c: c})
 				} else {
 					ops = append(ops, wop{c: "Ba"})
 				}
 				onBus = !onBus
+			case x == 14:
+				if r.below(2) == 0 {
+					if inNet {
+						ops = append(ops, wop{c: "Nr"})
+					} else {
+						ops = append(ops, wop{c: "Na"})
+					}
+					inNet = !inNet
+				} else {
+					if onBus2 {
+						ops = append(ops, wop{c: "Br2"})
+					} else {
+						ops = append(ops, wop{c: "Ba2"})
+					}
+					onBus2 = !onBus2
+				}
 			case x < 16:
 				ops = append(ops, wop{c: "Sb", i: r.below(npool + 1)})
 			default:
